@@ -93,6 +93,9 @@ def idiom_prefix_then_push(fns, body, src):
     return (True, "prefix up to position(b == 0) + push(0)") if ok else (False, "`end` is not position(|b| b == 0).unwrap_or(len) of the argument")
 
 
+LEN_OF_SLICE = ("core::slice::<impl [T]>::len",)
+
+
 def run(tier):
     ck = report.Check("C14", tier, level="other")
     f = facts.cfg_cglue()
@@ -276,6 +279,12 @@ def run(tier):
                             if any(t in ("i8", "u8") for t in tys):
                                 cmps.append((st_["r"]["op"], a_, b_))
         good = bool(cmps) and all(op in ("Eq", "Ne") and ((a_[0] == "const" and a_[1] == 0) or (b_[0] == "const" and b_[1] == 0)) for op, a_, b_ in cmps)
+        if not cmps:
+            # no scan of its own: the standard library's is used -- `CStr::from_ptr(ptr).to_bytes_with_nul().len()` is by definition the
+            # index of the first NUL + 1
+            ro = mir.deepstrip(mir.Body(ss).origin_local(0))
+            good = ro[0] == "call" and ro[1] in LEN_OF_SLICE and ro[2] and (lambda b_: b_[0] == "call" and b_[1].endswith("CStr::to_bytes_with_nul") and
+                                                                         (lambda c_: c_[0] == "call" and c_[1].endswith("CStr::from_ptr") and mir.deepstrip(c_[2][0]) == ("arg", 1))(mir.deepstrip(b_[2][0])))(mir.deepstrip(ro[2][0]))
         ck.ob("S6-terminator-test-is-equality-with-zero", "cglue/string_size", good,
               "string_size must look for the first byte equal to 0: byte comparisons found %s" % [(op, mir.fmt(a_)[:30], mir.fmt(b_)[:30]) for op, a_, b_ in cmps],
               sample={"comparisons": [op for op, _, _ in cmps]})
